@@ -12,7 +12,8 @@ Hypotheses (the *universe* of function versions the theorem talks about):
 * `faithful`  — the source text of a function determines its code (name, parameters, items, tag, …): two
   versions with the same lines are the same program. This is a property of Python (the text *is* the
   program) and of the generator's renderer; the harness checks it on every generated version.
-* `varsInj`   — `dds_hash` is injective on the values of tracked variables that occur (C05 proves exactly which
+* `varsInj`, `argsInj` — `dds_hash` is injective on the values of tracked variables that occur, and on the argument
+  values that occur (two separate sets: a variable is never compared with an argument) (C05 proves exactly which
   values collide: `collide_iff`; the generator's pools are collision-free).
 * `noLoads`   — this file covers the load-free fragment (`call`, `callArgs`, `ref`, `keep` items).
 -/
@@ -53,15 +54,19 @@ def Item.line : Item → Nat
 
 structure Universe where
   fns : Fn → Prop
+  /-- the values of tracked variables that occur -/
   vals : PyVal → Prop
+  /-- the argument values that occur: literals at calls, defaults, arguments of entry calls -/
+  avals : PyVal → Prop
   faithful : ∀ f g, fns f → fns g → f.lines = g.lines → f.code = g.code
   varsInj : ∀ v w, vals v → vals w → canonKF v = canonKF w → v = w
+  argsInj : ∀ v w, avals v → avals w → canonKF v = canonKF w → v = w
   varsIn : ∀ f, fns f → ∀ nv ∈ f.vars, vals nv.2
   varNames : ∀ f, fns f → (f.vars.map Prod.fst).Nodup
   noLoads : ∀ f, fns f → ∀ it ∈ f.items, it.noLoad
   /-- literal arguments and defaults are values on which `dds_hash` is injective; parameters are plain -/
-  constsIn : ∀ f, fns f → ∀ it ∈ f.items, ∀ v, it.hasConst v → vals v
-  defaultsIn : ∀ f, fns f → ∀ p ∈ f.params, ∀ d, p.default = some d → vals d
+  constsIn : ∀ f, fns f → ∀ it ∈ f.items, ∀ v, it.hasConst v → avals v
+  defaultsIn : ∀ f, fns f → ∀ p ∈ f.params, ∀ d, p.default = some d → avals d
   plainParams : ∀ f, fns f → plainParams f.params = true
   /-- parameter names are distinct, and none is called `context` (the key `arg_context` is reserved) -/
   paramNames : ∀ f, fns f → (f.params.map Param.name).Nodup
